@@ -50,6 +50,33 @@ func closedChan(in []int) chan int {
 
 func cp(in []int) []int { return append([]int{}, in...) }
 
+// adjacent lays the operand slices out the way batches cut from one array can
+// be: sub-slices of a single backing array. The first operand sits at the
+// start (so all the others live in its spare capacity), followed by the
+// remaining operands in reverse order. A flatten must only
+// read its inputs; one that appends into the first operand's spare capacity
+// overwrites later operands before it has copied them.
+func adjacent(ins [][]int) [][]int {
+	if len(ins) == 0 {
+		return nil
+	}
+	total := 0
+	for _, in := range ins {
+		total += len(in)
+	}
+	base := make([]int, total)
+	out := make([][]int, len(ins))
+	copy(base, ins[0])
+	out[0] = base[0:len(ins[0])]
+	off := len(ins[0])
+	for i := len(ins) - 1; i >= 1; i-- {
+		copy(base[off:], ins[i])
+		out[i] = base[off : off+len(ins[i]) : off+len(ins[i])]
+		off += len(ins[i])
+	}
+	return out
+}
+
 func build(n *node, e *runEnv) *fun.Iterator[int] {
 	switch n.k {
 	case srcSlice:
@@ -114,17 +141,9 @@ func build(n *node, e *runEnv) *fun.Iterator[int] {
 		}
 		return it
 	case srcMergeSlices:
-		sl := make([][]int, len(n.ins))
-		for i := range n.ins {
-			sl[i] = cp(n.ins[i])
-		}
-		return itertool.MergeSlices(sl...)
+		return itertool.MergeSlices(adjacent(n.ins)...)
 	case srcMergeSliceIters:
-		sl := make([][]int, len(n.ins))
-		for i := range n.ins {
-			sl[i] = cp(n.ins[i])
-		}
-		return itertool.MergeSliceIterators(fun.SliceIterator(sl))
+		return itertool.MergeSliceIterators(fun.SliceIterator(adjacent(n.ins)))
 	case nJoin:
 		rest := make([]*fun.Iterator[int], 0, len(n.kids)-1)
 		first := build(n.kids[0], e)
